@@ -80,10 +80,13 @@ var NilIface = &IfaceV{}
 type mapEntry struct {
 	k, v    Value
 	deleted bool
+	repr    string // concrete key representation ("" if symbolic)
 }
 
 type MapV struct {
 	id        int
+	index     map[string]*mapEntry // concrete-key index
+	symKeys   int                  // entries whose key is not concrete
 	entries   []*mapEntry
 	keyT      types.Type
 	elemT     types.Type
@@ -399,4 +402,66 @@ func f2bits(f float64, w int) uint64 {
 		return uint64(math.Float32bits(float32(f)))
 	}
 	return math.Float64bits(f)
+}
+
+// keyRepr returns a canonical string for a fully concrete, comparable key.
+func keyRepr(v Value) (string, bool) {
+	switch x := v.(type) {
+	case *Term:
+		if x.IsConst() {
+			return fmt.Sprintf("i%d:%d", x.sort.W, x.c), true
+		}
+	case *StrV:
+		if x.IsConst() {
+			return "s:" + x.Const(), true
+		}
+	case *Ptr:
+		if x.IsNil() {
+			return "p:nil", true
+		}
+		if x.obj != nil && x.sym == nil {
+			return fmt.Sprintf("p:%d%v", x.obj.id, x.path), true
+		}
+	case *IfaceV:
+		if x.T == nil {
+			return "n:nil", true
+		}
+		if r, ok := keyRepr(x.V); ok {
+			return "I:" + x.T.String() + "|" + r, true
+		}
+	case *StructV:
+		var sb strings.Builder
+		sb.WriteString("S{")
+		for _, f := range x.F {
+			r, ok := keyRepr(f)
+			if !ok {
+				return "", false
+			}
+			sb.WriteString(r)
+			sb.WriteString(";")
+		}
+		sb.WriteString("}")
+		return sb.String(), true
+	case *ArrayV:
+		var sb strings.Builder
+		sb.WriteString("A[")
+		for _, f := range x.E {
+			r, ok := keyRepr(f)
+			if !ok {
+				return "", false
+			}
+			sb.WriteString(r)
+			sb.WriteString(";")
+		}
+		sb.WriteString("]")
+		return sb.String(), true
+	case *ChanV:
+		if x == nil {
+			return "c:nil", true
+		}
+		return fmt.Sprintf("c:%d", x.id), true
+	case FloatV:
+		return fmt.Sprintf("f:%v", x.F), true
+	}
+	return "", false
 }
